@@ -25,6 +25,16 @@ def run (op impl : String) : Ans :=
       { model := m
         verdict := if impl == s then "ok" else "FAIL:" ++ cls
         tags := [cls] ++ (if l.length ≥ 2 then ["nt"] else []) }
+  | ["rp30", hx] =>
+    match bytesOfHex hx with
+    | none => { model := "bad-op", verdict := "skip" }
+    | some bs =>
+      let l := bs.map fun b => BitVec.ofNat 8 b.toNat
+      let m := render (removePaddingSSL30 l)
+      let s := render (specResultSSL30 l)
+      let p := (l.getD (l.length - 1) 0).toNat
+      let cls := if l.isEmpty then "ssl30-empty" else if p + 1 ≤ l.length then (if p = 255 then "ssl30-valid-255" else "ssl30-valid") else "ssl30-too-long"
+      { model := m, verdict := if impl == s then "ok" else "FAIL:" ++ cls, tags := [cls] ++ (if l.length ≥ 2 then ["nt"] else []) }
   | _ => { model := "bad-op", verdict := "skip" }
 
 end BfeVerif.C43
